@@ -712,3 +712,46 @@ Proof.
   destruct (handle_no_panic _ _ _ _ _ E OK) as (P1 & P2 & OK'). destruct (IH s' OK') as [F R].
   split; [constructor; [split; assumption | exact F] | exact R].
 Qed.
+
+(* ---------------- C29: bounded waiting ---------------- *)
+
+Lemma filter_partition_length : forall A (p : A -> bool) l,
+  (length (filter p l) + length (filter (fun x => negb (p x)) l) = length l)%nat.
+Proof. induction l as [|x l IH]; cbn [filter]; [reflexivity|]. destruct (p x); cbn [negb length]; lia. Qed.
+
+Definition htime_sum (htime : event -> N) (h : list event) : N := fold_right (fun e acc => htime e + acc) 0 h.
+
+(* one iteration: its duration plus what the remaining stalled channels can still cost = handler time plus what the stalled
+   channels could cost before *)
+Lemma serve_t_time : forall fuel D htime t e t' o dt, serve_t fuel D htime t e = (t', o, dt) ->
+  dt + D * N.of_nat (length (ts_stalled t')) = htime e + D * N.of_nat (length (ts_stalled t)).
+Proof.
+  intros fuel D htime t e t' o dt H. unfold serve_t in H. destruct (handle fuel (ts_srv t) e) as [s' o0].
+  cbv zeta in H. inversion H; subst; clear H. cbn [ts_stalled].
+  pose proof (filter_partition_length N (fun c => mem c (touched (ts_srv t) e o0)) (ts_stalled t)) as P.
+  assert (Q : N.of_nat (length (ts_stalled t)) =
+              N.of_nat (length (filter (fun c => mem c (touched (ts_srv t) e o0)) (ts_stalled t))) +
+              N.of_nat (length (filter (fun c => negb (mem c (touched (ts_srv t) e o0))) (ts_stalled t)))) by lia.
+  rewrite Q, N.mul_add_distr_l. lia.
+Qed.
+
+(* every event of a history is dealt with by (handler times so far) + D * (stalled channels at the start) *)
+Lemma run_t_bound : forall fuel D htime h t now,
+  Forall (fun ot => snd ot <= now + htime_sum htime h + D * N.of_nat (length (ts_stalled t))) (run_t fuel D htime t now h).
+Proof.
+  intros fuel D htime. induction h as [|e r IH]; intros t now; cbn [run_t]; [constructor|].
+  destruct (serve_t fuel D htime t e) as [[t' o] dt] eqn:E. pose proof (serve_t_time _ _ _ _ _ _ _ _ E) as T.
+  cbn [htime_sum fold_right]. fold (htime_sum htime r).
+  constructor.
+  - cbn [snd]. lia.
+  - eapply Forall_impl; [|apply IH]. intros [o' tm] H. cbn [snd] in *. lia.
+Qed.
+
+Lemma handle_never_hangs : forall fuel s e s' o, handle fuel s e = (s', o) -> o <> OHang /\ o <> OWriteTimeout.
+Proof.
+  intros fuel s e s' o H.
+  destruct e as [chan tok r|id|id]; cbn [handle] in H; [|inv_pair H; split; discriminate|inv_pair H; split; discriminate].
+  destruct (negb (has_handler r)); [inv_pair H; split; discriminate|].
+  destruct (check_session s (svc_of r) tok); [inv_pair H; split; discriminate|].
+  destruct r; cbn [dispatch] in H; break_in H; inv_pair H; split; discriminate.
+Qed.
